@@ -36,6 +36,7 @@ func runHist(c *caseT) string {
 	recs := map[int]*recorder{}
 	cfgs := map[int]*jsonpath.Config{}
 	cfgRecs := map[int]*recorder{}
+	docSlots := map[int]interface{}{}
 	type kept struct {
 		res    []interface{}
 		render string
@@ -108,6 +109,21 @@ func runHist(c *caseT) string {
 				continue
 			}
 			doc := buildDoc(op.Doc)
+			if op.DocRef > 0 {
+				// the caller keeps one document object and edits it in place between calls
+				if d, ok := docSlots[op.DocRef]; ok {
+					doc = d
+				} else {
+					docSlots[op.DocRef] = doc
+				}
+				if m, ok := doc.(map[string]interface{}); ok && len(op.Rename) == 2 {
+					from, to := unhex(op.Rename[0]), unhex(op.Rename[1])
+					if v, ok := m[from]; ok {
+						delete(m, from)
+						m[to] = v
+					}
+				}
+			}
 			before := render(doc)
 			recs[op.Slot].take()
 			if len(op.Reenter) > 0 && string(op.Reenter) != "null" {
